@@ -25,6 +25,12 @@ with contextlib.redirect_stdout(buf), contextlib.redirect_stderr(buf):
         except Exception as e: out["modulus"] = "error: %s" % type(e).__name__
         api = ["privval", "pubval", "zero", "one", "fieldinverse", "get_modulus", "add_constraint", "prove"]
         out["missing_api"] = [a for a in api if not hasattr(rt.backend, a)]
+        # the field the backend's own arithmetic works in is the field it reports
+        try:
+            md = rt.backend.get_modulus()
+            out["inverse_in_reported_field"] = all((rt.backend.fieldinverse(k) * k) % md == 1 for k in (3, 7, md - 2))
+        except Exception as e:
+            out["inverse_in_reported_field"] = "error: %s" % type(e).__name__
         try:
             from pysnark.runtime import PrivVal
             x = PrivVal(3); y = x * x; (y + 1).val()
